@@ -74,13 +74,16 @@ pub fn c20_netmask_default_24() {
 fn announce_interval(npeers: usize) {
     let update_freq: UpdateFreq = kani::any();
     let timeouts: [u16; 3] = kani::any();
+    let expiries: [Time; 3] = kani::any();
+    let last_seen: [Time; 3] = kani::any();
     let now: Time = kani::any();
     kani::assume(now >= 0 && now < (1 << 40));
-    let mut c = XCloud { peers: smallvec::ivec::IVec::new(), update_freq, next_peers: now };
+    let mut c = XCloud { peers: Default::default(), update_freq, next_peers: now };
     let mut smallest: u32 = if npeers == 0 { DEFAULT_PEER_TIMEOUT as u32 } else { u32::MAX };
     let mut i = 0;
     while i < npeers {
-        c.peers.push((i as u8, XPeer { peer_timeout: timeouts[i] }));
+        // the local bookkeeping of each peer (last refresh, local expiry) is arbitrary: it must not matter
+        c.peers.insert(i as u8, XPeer { last_seen: last_seen[i], timeout: expiries[i], peer_timeout: timeouts[i] });
         if (timeouts[i] as u32) < smallest {
             smallest = timeouts[i] as u32;
         }
